@@ -93,7 +93,71 @@ fn seeds() -> Vec<String> {
     v
 }
 
+/// The input all evaluation texts are evaluated on: one field of every type under short names (the dictionary has them)
+pub fn eval_facts() -> Value {
+    use chrono::TimeZone;
+    let m = |kv: Vec<(&str, Value)>| Value::Map(kv.into_iter().map(|(k, v)| (k.to_string(), v)).collect());
+    m(vec![
+        ("a", Value::Int(1)), ("b", Value::Int(-7)), ("big", Value::Int(i128::MAX)), ("small", Value::Int(i128::MIN)), ("x", Value::Float(1.5)), ("y", Value::Float(-0.0)), ("nan", Value::Float(f64::NAN)),
+        ("p", Value::Decimal(rust_decimal::Decimal::new(25, 1))), ("q", Value::Decimal(rust_decimal::Decimal::MAX)), ("s", Value::String("Straße Σ".into())), ("e", Value::String(String::new())), ("num", Value::String("42".into())),
+        ("t", Value::Bool(true)), ("u", Value::Bool(false)), ("n", Value::None), ("when", Value::DateTime(chrono::Utc.with_ymd_and_hms(2024, 2, 29, 23, 59, 59).unwrap())), ("span", Value::Duration(chrono::TimeDelta::seconds(90_061))),
+        ("l", Value::Vec(vec![Value::Int(1), Value::String("a".into()), Value::None, Value::Vec(vec![])])), ("m", m(vec![("k", Value::Int(1)), ("a", Value::None), ("deep", m(vec![("l", Value::Vec(vec![Value::Int(9)]))]))])),
+    ])
+}
+
+/// The evaluation oracles on one text: parse it (rejected texts are not this leg's business), evaluate it with reval and with the
+/// reference evaluator on `eval_facts()`: a panic or a silently out-of-range result belongs to C01, any other disagreement to C02.
+pub fn oracles_eval(text: &str) -> Option<(&'static str, String)> {
+    let e = match guard(|| Expr::parse(text)) {
+        Ok(Ok(e)) => e,
+        _ => return None,
+    };
+    let facts = eval_facts();
+    let (exp, wide) = crate::evalcommon::eval_ref(&e, &facts);
+    let obs = crate::evalcommon::eval_real(&e, &facts);
+    if let crate::refeval::Obs::Panic(p) = &obs {
+        return Some(("C01", format!("panic {}", normalise(p))));
+    }
+    if wide {
+        return None;
+    }
+    let mis = crate::refeval::compare(&exp, &obs)?;
+    // name the smallest failing sub-expression
+    let (cell, mis) = match crate::evalcommon::localize(&e, &facts) {
+        Some((sub, m)) => (crate::evalcommon::node_cell(sub, &facts), m),
+        None => (format!("{}(composition)", crate::gen::kind(&e)), mis),
+    };
+    let silent = matches!((&exp, &obs), (Err(x), crate::refeval::Obs::Val(_)) if x.range);
+    Some(if silent { ("C01", format!("silent-out-of-range {cell}")) } else { ("C02", format!("{mis} {cell}")) })
+}
+
+fn seeds_eval() -> Vec<String> {
+    [
+        "a + b * i2 - big / b % i3", "x * f2.5 / y + nan", "p + q - d0.1 * p / d3 % d7", "if t then s else e", "t and u or n == n", "a > b and x >= y or p < q", "a & b | i12 ^ i5", "s contains \"ß\" and l contains n and \"k\" in m",
+        "int(num) + int(x) + int(p) + int(t)", "float(a) + float(num) + float(p)", "dec(a) + dec(x) + dec(num)", "uppercase(s) == lowercase(s) or trim(e) == e", "round(x) + floor(x) + fract(x)", "round(p) + floor(p) + fract(p)",
+        "year(when) + month(when) + week(when) + day(when) + hour(when) + minute(when) + second(when)", "when + span - span", "when - when", "span + span - span", "datetime(\"2020-01-01T00:00:00Z\") < when", "duration(i60) + span", "datetime(i0)", "duration(\"P1DT1H\")",
+        "l.0 + l.3.0", "m.deep.l.0", "m.a == none", "facts.m.k", "[a, b, x].1", "{k: a}.k", "is_some(n) or is_none(a)", "-a + -x + -p", "!t", "big + a", "small - a", "-small", "big * i2", "a / i0", "a % i0", "x / f0", "p / d0", "week(i99999999999999)",
+    ]
+    .into_iter()
+    .map(String::from)
+    .collect()
+}
+
+pub struct Target {
+    pub bin: &'static str,
+    pub oracles: fn(&str) -> Option<(&'static str, String)>,
+    pub seeds: fn() -> Vec<String>,
+    pub what: &'static str,
+}
+
+pub const PARSE: Target = Target { bin: "fuzzparse", oracles, seeds, what: "no panic in Expr::parse / Rule::parse (C06); accept/reject and tree equal to the reference parser (C07); rendering of an accepted tree parses back to it (C16)" };
+pub const EVAL: Target = Target { bin: "fuzzeval", oracles: oracles_eval, seeds: seeds_eval, what: "accepted texts are evaluated on a fixed input holding a field of every type, by reval and by the reference evaluator: a panic or a silently out-of-range result (C01), any other disagreement in value / error variant / payload (C02)" };
+
 pub fn run(prop: &str, secs: u64, seed: u64) -> FuzzOut {
+    run_target(if prop == "C01" || prop == "C02" { &EVAL } else { &PARSE }, prop, secs, seed)
+}
+
+pub fn run_target(target: &Target, prop: &str, secs: u64, seed: u64) -> FuzzOut {
     crate::core::install_panic_hook();
     let mut out = FuzzOut { execs: 0, new_units: 0, processes: 0, secs, violations: vec![], other: BTreeMap::new(), inconclusive: vec![] };
     // build
@@ -117,7 +181,7 @@ pub fn run(prop: &str, secs: u64, seed: u64) -> FuzzOut {
             return out;
         }
     }
-    let bin = tdir.join("x86_64-unknown-linux-gnu/release/fuzzparse");
+    let bin = tdir.join("x86_64-unknown-linux-gnu/release").join(target.bin);
     let work = target_base().join("fuzz-work").join(prop);
     let _ = std::fs::remove_dir_all(&work);
     // token dictionary: keywords, operators, literal prefixes and the pieces of escapes
@@ -125,7 +189,7 @@ pub fn run(prop: &str, secs: u64, seed: u64) -> FuzzOut {
     let dict = work.join("tokens.dict");
     {
         let mut d = String::new();
-        for t in crate::print::KEYWORDS.iter().copied().chain(["==", "!=", ">=", "<=", "//", "\\u{", "\\u{41}", "}", "{", "\\\\", "\\\"", "\\n", "0x", "0o", "0b", "i1", "f1.5", "d2.5", "f1e5", ":s", ".0", ".a", "@k:", ";", ", ", "[", "]", "(", ")", "\"", "facts", "\n", "\r\n", "i1, ", "a, a, a, a, a, a, a, a, "]) {
+        for t in crate::print::KEYWORDS.iter().copied().chain(["==", "!=", ">=", "<=", "//", "\\u{", "\\u{41}", "}", "{", "\\\\", "\\\"", "\\n", "0x", "0o", "0b", "i1", "f1.5", "d2.5", "f1e5", ":s", ".0", ".a", "@k:", ";", ", ", "[", "]", "(", ")", "\"", "facts", "\n", "\r\n", "i1, ", "a, a, a, a, a, a, a, a, ", "big", "small", "nan", "when", "span", "num", " + ", " - ", " * ", " / ", " % ", "i0", "f0", "d0", "i170141183460469231731687303715884105727", "i-170141183460469231731687303715884105728", "d79228162514264337593543950335", "f1e308", "f5e-324", "i9223372036854775807", "i2147483648"]) {
             d.push_str(&format!("\"{}\"\n", t.replace('\\', "\\\\").replace('"', "\\\"").replace('\n', "\\x0a").replace('\r', "\\x0d")));
         }
         std::fs::write(&dict, d).ok();
@@ -140,7 +204,7 @@ pub fn run(prop: &str, secs: u64, seed: u64) -> FuzzOut {
                 let art = work.join(format!("art{i}"));
                 std::fs::create_dir_all(&corpus).ok();
                 std::fs::create_dir_all(&art).ok();
-                for (k, s) in seeds().iter().enumerate() {
+                for (k, s) in (target.seeds)().iter().enumerate() {
                     std::fs::write(corpus.join(format!("seed{k:03}")), s).ok();
                 }
                 let t0 = Instant::now();
@@ -188,7 +252,7 @@ pub fn run(prop: &str, secs: u64, seed: u64) -> FuzzOut {
                             // as a deadly signal: take the artifact through the same oracles in this process, where panics are caught
                             let newest = std::fs::read_dir(&art).ok().and_then(|d| d.filter_map(|e| e.ok()).max_by_key(|e| e.metadata().and_then(|m| m.modified()).ok()));
                             if let Some(text) = newest.and_then(|e| std::fs::read(e.path()).ok()).and_then(|b| String::from_utf8(b).ok()) {
-                                match guard(|| oracles(&text)) {
+                                match guard(|| (target.oracles)(&text)) {
                                     Ok(Some((p, class))) => {
                                         found.push((p.to_string(), class, format!("{text:?}")));
                                         let _ = std::fs::remove_dir_all(&art);
@@ -228,6 +292,7 @@ pub fn run(prop: &str, secs: u64, seed: u64) -> FuzzOut {
         for (p, class, text) in found {
             if p == prop {
                 let class = if p == "C06" { normalise(&class) } else { class };
+                let text = if target.bin == "fuzzeval" { format!("EVAL {text}") } else { text };
                 let sig = format!("{prop} fuzz {class}");
                 by_sig.entry(sig.clone()).and_modify(|v| v.count += 1).or_insert(Violation { sig, what: format!("found by the coverage-guided leg: {class}"), case: json!({"text_debug": text, "fuzz": true}), count: 1 });
             } else {
@@ -242,12 +307,12 @@ pub fn run(prop: &str, secs: u64, seed: u64) -> FuzzOut {
 
 /// Run the leg for `prop` and put its findings, counters and problems into the property's Finish.
 pub fn attach(f: &mut crate::core::Finish, prop: &str, secs: u64) {
-    let fz = run(prop, secs, crate::core::seed_from_env());
+    let target = if prop == "C01" || prop == "C02" { &EVAL } else { &PARSE };
+    let fz = run_target(target, prop, secs, crate::core::seed_from_env());
     f.extras.insert(
         "coverage_guided_leg".into(),
-        json!({"engine": "libFuzzer (libfuzzer-sys 0.4) over fuzzparse, 16 processes", "seconds_per_process": fz.secs, "executions": fz.execs, "corpus_units_added": fz.new_units, "process_runs": fz.processes,
-               "findings_for_this_property": fz.violations.len(), "findings_for_the_other_parser_properties": fz.other,
-               "oracles": "no panic in Expr::parse / Rule::parse (C06); accept/reject and tree equal to the reference parser (C07); rendering of an accepted tree parses back to it (C16)"}),
+        json!({"engine": format!("libFuzzer (libfuzzer-sys 0.4) over {}, 16 processes", target.bin), "seconds_per_process": fz.secs, "executions": fz.execs, "corpus_units_added": fz.new_units, "process_runs": fz.processes,
+               "findings_for_this_property": fz.violations.len(), "findings_for_the_other_properties_of_this_leg": fz.other, "oracles": target.what}),
     );
     f.floors.push(crate::core::floor(format!("coverage-guided leg executions: {}", fz.execs), fz.execs >= 200_000 || !fz.violations.is_empty()));
     for n in &fz.inconclusive {
